@@ -1,7 +1,7 @@
-import Hs.Model.Vx
+import Hs.Drv.Json
 namespace Hs.Drv.C02
 
-/-- requests `C02 <cmd> ...` (tokens after the property id) -/
-def handle (_ts : List String) : String := "bad-request"
+/-- requests `C02 jenc V`, `C02 jdec J` -/
+def handle (ts : List String) : String := Hs.Drv.Json.handle ts
 
 end Hs.Drv.C02
